@@ -100,7 +100,7 @@ def main():
                 got = ov(v)
             except TypeError as e:
                 s = str(e)
-                got = "AMBIGUOUS" if s.startswith("Ambiguous") else "NOMETHOD" if s.startswith("No method") else f"TypeError:{s[:40]}"
+                got = "AMBIGUOUS" if __import__("_errs").amb(s) else "NOMETHOD" if __import__("_errs").nomethod(s) else f"TypeError:{s[:40]}"
             except Exception as e:
                 got = f"{type(e).__name__}:{str(e)[:40]}"
             if got != want:
@@ -120,7 +120,7 @@ def main():
             try:
                 got = ov(v)
             except TypeError as e:
-                got = "NOMETHOD" if str(e).startswith("No method") else "TypeError"
+                got = "NOMETHOD" if __import__("_errs").nomethod(str(e)) else "TypeError"
             if got != "special":
                 fail(f"special_annotation_spelling[{label}]", passed=repr(v), got=got)
         if "type" in label:
@@ -142,7 +142,7 @@ def main():
                 try:
                     got = ov2(v, 1)
                 except TypeError as e:
-                    got = "AMBIGUOUS" if str(e).startswith("Ambiguous") else "NOMETHOD" if str(e).startswith("No method") else "TypeError"
+                    got = "AMBIGUOUS" if __import__("_errs").amb(str(e)) else "NOMETHOD" if __import__("_errs").nomethod(str(e)) else "TypeError"
                 if got != want:
                     fail(f"special_annotation_next_to_an_object_method[{label}]", passed=repr(v), got=got, expected=want)
     # ordinary arguments in the same call keep dispatching on their class
@@ -164,7 +164,7 @@ def main():
         try:
             got = ov(t, x)
         except TypeError as e:
-            got = "AMBIGUOUS" if str(e).startswith("Ambiguous") else "NOMETHOD"
+            got = "AMBIGUOUS" if __import__("_errs").amb(str(e)) else "NOMETHOD"
         if got != want:
             fail("mixed_type_and_ordinary_arguments", call=[repr(t), repr(x)], got=got, expected=want)
     # a keyword-only type[...] parameter supplied at a rewritten recurse / call_next site
@@ -191,7 +191,7 @@ def main():
         try:
             got = call()
         except TypeError as e:
-            got = "AMBIGUOUS" if str(e).startswith("Ambiguous") else "NOMETHOD" if str(e).startswith("No method") else f"TypeError:{str(e)[:40]}"
+            got = "AMBIGUOUS" if __import__("_errs").amb(str(e)) else "NOMETHOD" if __import__("_errs").nomethod(str(e)) else f"TypeError:{str(e)[:40]}"
         if got != want:
             fail("keyword_only_class_argument_through_recurse_and_call_next", got=repr(got)[:100], expected=repr(want))
     # METHODS with a class-valued argument followed by an ordinary one: a rewritten recurse / call_next site must key the
@@ -230,7 +230,7 @@ def main():
             try:
                 got = call()
             except TypeError as e:
-                got = "AMBIGUOUS" if str(e).startswith("Ambiguous") else "NOMETHOD" if str(e).startswith("No method") else f"TypeError:{str(e)[:40]}"
+                got = "AMBIGUOUS" if __import__("_errs").amb(str(e)) else "NOMETHOD" if __import__("_errs").nomethod(str(e)) else f"TypeError:{str(e)[:40]}"
             except Exception as e:
                 got = f"{type(e).__name__}:{str(e)[:40]}"
             if got != want:
